@@ -4,7 +4,7 @@ the line, and sequential `Dummy`) instantiated with the scripted environment `Sc
 the harness (`/verif/harness/c02.py`) performed on the real `SubprocVecEnv` and `DummyVecEnv`.
 
 lines
-  {"op":"new","envs":[{"env_id":k,"script":[[q,bool,bool]],"some_attr":i}]}     → {"ok":n}
+  {"op":"new","envs":[{"env_id":k,"script":[[q,bool,bool]],"some_attr":i,"depth":0|1|2,"shadow":[[name,i]]}]}     → {"ok":n}
   {"op":"seed","s":i,"sched":S}            {"op":"set_options","arg":null|{"dict":D}|{"list":[D]},"sched":S}
   {"op":"reset","sched":S}                 {"op":"step","acts":[i],"sched":S}
   {"op":"get_attr","name":s,"idx":I,"sched":S}       {"op":"set_attr","name":s,"v":i,"idx":I,"sched":S}
@@ -88,10 +88,13 @@ def asEnv (j : Json) : Except String Scripted.St := do
   let script ← getList asScriptEntry j "script"
   let sa ← getInt j "some_attr"
   if script.isEmpty then throw "empty script"
-  let wrapped := match j.getObjVal? "wrapped" with
-    | .ok (.bool b) => b
-    | _ => false
-  return { envId := envId, script := script, someAttr := sa, wrapped := wrapped }
+  let depth ← getNat j "depth"
+  let shadow ← getList (fun kv => do
+    let l ← asList kv
+    match l with
+    | [k, v] => return ((← asStr k), (← asInt v))
+    | _ => throw "bad shadow pair") j "shadow"
+  return { envId := envId, script := script, someAttr := sa, depth := depth, shadow := shadow }
 
 def parseOp (op : String) (j : Json) : Except String (Op Int Nat) := do
   match op with
